@@ -7,8 +7,16 @@ FUNCS = ["sievelib.factory.FiltersSet.addfilter", "updatefilter", "replacefilter
          "sievelib.commands.Command.tosieve"]
 
 
-def hist_conds(mode, L, timeout, extra_env=None, by_name=False, nn=3, nd=3):
+def hist_conds(mode, L, timeout, extra_env=None, by_name=False, nn=3, nd=3, by_op1=False):
     out = []
+    if by_op1:
+        for op1 in range(H.NOPS):
+            e = dict(extra_env or {})
+            e.update({"C12_OP1LO": op1, "C12_OP1HI": op1 + 1})
+            for c in hist_conds(mode, L, timeout, e, by_name, nn, nd):
+                c.name += "-second%s" % H.OPS[op1]
+                out.append(c)
+        return out
     for op in range(H.NOPS):
         n1 = nn + 1 if nn == 3 else nn
         names = [(n, n + 1) for n in range(n1)] if by_name else [(0, n1)]
@@ -35,7 +43,7 @@ def plan(tier, seed):
     else:
         conds = hist_conds("c12", 3, 1500, by_name=True, nn=2, nd=1)
         conds += hist_conds("c12", 2, 900, by_name=True, nd=3)
-        conds += [c for c in hist_conds("c12", 4, 1500, by_name=True, nn=2, nd=1) if "-add-" in c.name]
+        conds += [c for c in hist_conds("c12", 4, 1500, by_name=True, nn=2, nd=1, by_op1=True) if "-add-" in c.name]
         b = ("all histories of length 2 over 3 names (+ bytes alias, bytes and empty new names) x 3 definitions; all histories of "
              "length 3 over 2 names, every edit changing the content; histories of length 4 over 2 names that start with addfilter")
     conds.append(Cond("c12-vacuity", F, "hist2", env={"C12_MODE": "c12"}, timeout=90, vacuity=True))
